@@ -5,7 +5,7 @@ ids="$@"; [ -z "$ids" ] && ids=$(bin/symgo list)
 mkdir -p /tmp/runall
 for id in $ids; do
   s=$(date +%s)
-  VERIF_SEED=${VERIF_SEED:-1} bin/symgo check $id --tier $tier > /tmp/runall/$id.$tier.log 2>&1
+  VERIF_SEED=${VERIF_SEED:-1} timeout ${CAP:-100000} bin/symgo check $id --tier $tier > /tmp/runall/$id.$tier.log 2>&1
   rc=$?
   e=$(date +%s)
   echo "$id rc=$rc $((e-s))s $(grep -c VIOLATION /tmp/runall/$id.$tier.log) violations $(grep -c KNOWN-FINDING /tmp/runall/$id.$tier.log) known"
